@@ -10,7 +10,7 @@ pub struct Ipv6RoutingExtensions {
 
 impl Ipv6RoutingExtensions {
     /// Minimum length required for routing extension headers in bytes/octets.
-    pub const MIN_LEN: usize = Ipv6RawExtHeader::MAX_LEN;
+    pub const MIN_LEN: usize = Ipv6RawExtHeader::MIN_LEN;
 
     /// Maximum summed up length of all extension headers in bytes/octets.
     pub const MAX_LEN: usize = Ipv6RawExtHeader::MAX_LEN * 2;
